@@ -25,6 +25,7 @@ package logic
 //     A side file c34.mon carries, per op line, `ran=<0|1> | <check error> | <eval error at pc>` for the monitor.
 
 import (
+	"encoding/binary"
 	"encoding/hex"
 	"encoding/json"
 	"errors"
@@ -879,6 +880,9 @@ func verifC34Exec(line string) (string, string) {
 	if err != nil {
 		return "bad-op", ""
 	}
+	if kind == "br" {
+		return verifC34ExecBr(mode, f[2], prog)
+	}
 	env := verifC34MakeEnv(mode)
 	ep := env.ep
 	if fmt.Sprint(ep.minAvmVersion) != f[2] {
@@ -1054,10 +1058,461 @@ func verifC34Generate() []string {
 	return ops
 }
 
+// ---------------------------------------------------------------------------------------------
+// branch layouts (kind "br"): instruction boundaries and branch targets, check vs eval
+// ---------------------------------------------------------------------------------------------
+//
+// op line:   br <mode> <minv> 0 <hex program> - # comment
+// result:    chk=<ok|toonew|wrongmode|minver|badver|misaligned|outside|other|setupfail>
+// side file: `ran=0 | <check error> | <eval error> | len=<n> starts=<pcs check recorded> reached=<pcs eval visited>`
+// The Lean driver prints Model.OpCheck.staticCheck's verdict for the same bytes; checks/C34.py evaluates the monitor
+// "check ok  =>  every pc eval reaches is an instruction start recorded by check (or the end of the program)".
+
+// verifC34Instr: the minimal well-formed encoding of one instruction (field immediates 0, empty constant blocks, offset 0)
+func verifC34Instr(spec *OpSpec) []byte {
+	b := []byte{spec.Opcode}
+	if spec.SubOpcode != 0 {
+		b = append(b, spec.SubOpcode)
+	}
+	for _, im := range spec.Immediates {
+		switch im.kind {
+		case immLabel:
+			b = append(b, 0, 0)
+		default:
+			b = append(b, 0)
+		}
+	}
+	return b
+}
+
+// every spec a program of version v may use in `mode`, in table order (sub-opcodes after their prefix)
+func verifC34Available(v uint64, mode RunMode) []*OpSpec {
+	var out []*OpSpec
+	for op := 0; op < 256; op++ {
+		c := &opsByOpcode[v][op]
+		if c.op != nil && (c.Modes&mode) != 0 {
+			out = append(out, c)
+		}
+		for i := range c.SubOps {
+			if c.SubOps[i].op != nil && (c.SubOps[i].Modes&mode) != 0 {
+				out = append(out, &c.SubOps[i])
+			}
+		}
+	}
+	return out
+}
+
+func verifC34BranchKind(spec *OpSpec) immKind {
+	for _, im := range spec.Immediates {
+		if im.kind == immLabel || im.kind == immVarintLabel || im.kind == immLabels {
+			return im.kind
+		}
+	}
+	return immByte
+}
+
+// encode a branch instruction placed at `at` that goes to absolute position `target`; ok=false when not encodable
+func verifC34EncodeBranch(spec *OpSpec, at int, target int) ([]byte, bool) {
+	switch verifC34BranchKind(spec) {
+	case immLabel:
+		off := target - (at + 3)
+		if off < -32768 || off > 32767 {
+			return nil, false
+		}
+		return []byte{spec.Opcode, byte(uint16(int16(off)) >> 8), byte(uint16(int16(off)))}, true
+	case immVarintLabel:
+		if target < at {
+			buf := make([]byte, binary.MaxVarintLen64)
+			n := binary.PutVarint(buf, int64(target-at))
+			return append([]byte{spec.Opcode}, buf[:n]...), true
+		}
+		for n := 1; n <= 3; n++ {
+			off := target - (at + 1 + n)
+			if off < 0 {
+				return nil, false
+			}
+			buf := make([]byte, binary.MaxVarintLen64)
+			if binary.PutVarint(buf, int64(off)) == n {
+				return append([]byte{spec.Opcode}, buf[:n]...), true
+			}
+		}
+		return nil, false
+	case immLabels:
+		off := target - (at + 4)
+		if off < -32768 || off > 32767 {
+			return nil, false
+		}
+		return []byte{spec.Opcode, 1, byte(uint16(int16(off)) >> 8), byte(uint16(int16(off)))}, true
+	}
+	return nil, false
+}
+
+// width of the encoding verifC34EncodeBranch will produce for a FORWARD branch with a small offset
+func verifC34BranchWidth(spec *OpSpec) int {
+	switch verifC34BranchKind(spec) {
+	case immLabel:
+		return 3
+	case immVarintLabel:
+		return 2
+	}
+	return 4
+}
+
+// values a branch needs on the stack to be TAKEN (constants: intc_0 = 0, intc_1 = 1)
+func verifC34BranchPushes(spec *OpSpec) []byte {
+	v1 := OpsByName[1]
+	i0, i1 := v1["intc_0"].Opcode, v1["intc_1"].Opcode
+	switch spec.Name {
+	case "bnz":
+		return []byte{i1}
+	case "bz", "switch":
+		return []byte{i0}
+	case "match":
+		return []byte{i1, i1}
+	}
+	var out []byte
+	for range spec.Arg.Types {
+		out = append(out, i0)
+	}
+	return out
+}
+
+// "fat" shapes of the dynamically sized instructions, by name, when available
+func verifC34FatVictims(v uint64, mode RunMode) [][]byte {
+	var out [][]byte
+	add := func(name string, tail ...byte) {
+		if s, ok := OpsByName[v][name]; ok && (s.Modes&mode) != 0 {
+			out = append(out, append([]byte{s.Opcode}, tail...))
+		}
+	}
+	add("intcblock", 2, 0xac, 0x02, 1)        // [300, 1]
+	add("bytecblock", 2, 2, 'a', 'b', 0)      // ["ab", ""]
+	add("pushbytes", 3, 'a', 'b', 'c')        //
+	add("pushint", 0xac, 0x02)                // 300
+	add("pushints", 2, 0xac, 0x02, 1)         //
+	add("pushbytess", 2, 1, 'x', 2, 'y', 'z') //
+	long := []byte{70}
+	for i := 0; i < 70; i++ {
+		long = append(long, byte('a'+i%26))
+	}
+	add("pushbytes", long...) // pushes back-branch offsets beyond one varint byte
+	return out
+}
+
+func verifC34BranchPrograms(v uint64, mode RunMode) (progs [][]byte, notes []string) {
+	v1 := OpsByName[1]
+	head := []byte{byte(v), v1["intcblock"].Opcode, 2, 0, 1}
+	tail := []byte{v1["intc_0"].Opcode}
+	avail := verifC34Available(v, mode)
+	var branches []*OpSpec
+	type victim struct {
+		b    []byte
+		name string
+	}
+	var victims []victim
+	singles := 0
+	for _, s := range avail {
+		if verifC34BranchKind(s) != immByte {
+			branches = append(branches, s)
+		}
+		enc := verifC34Instr(s)
+		if len(enc) > 1 {
+			victims = append(victims, victim{enc, s.Name})
+		} else if singles < 2 {
+			singles++
+			victims = append(victims, victim{enc, s.Name})
+		}
+	}
+	for _, f := range verifC34FatVictims(v, mode) {
+		victims = append(victims, victim{f, "fat"})
+	}
+	var skip *OpSpec // a conditional branch that exists in every version: used to jump over the victim of a back branch
+	for _, s := range branches {
+		if s.Name == "bnz" {
+			skip = s
+		}
+	}
+	for _, br := range branches {
+		pushes := verifC34BranchPushes(br)
+		for vi, vic := range victims {
+			// forward: head pushes BR VICTIM tail ; targets victim+0 .. victim+len, and (first victim only) len, len+1, 0
+			at := len(head) + len(pushes)
+			vs := at + verifC34BranchWidth(br)
+			total := vs + len(vic.b) + len(tail)
+			targets := []int{}
+			for j := 0; j <= len(vic.b); j++ {
+				targets = append(targets, vs+j)
+			}
+			if vi == 0 {
+				targets = append(targets, total, total+1, at, at+1, 1, 0)
+			}
+			for _, tg := range targets {
+				enc, ok := verifC34EncodeBranch(br, at, tg)
+				if !ok || (tg >= vs && len(enc) != vs-at) {
+					continue
+				}
+				p := append([]byte{}, head...)
+				p = append(p, pushes...)
+				p = append(p, enc...)
+				if len(enc) != vs-at { // backward / self targets of the first victim: layout shifts, targets are what they are
+					vs2 := at + len(enc)
+					_ = vs2
+				}
+				p = append(p, vic.b...)
+				p = append(p, tail...)
+				progs = append(progs, p)
+				notes = append(notes, fmt.Sprintf("v%d %s fwd ->%d over %s@%d+%d", v, br.Name, tg, vic.name, at+len(enc), len(vic.b)))
+			}
+			// backward: head intc_1 SKIP VICTIM pushes BR ; SKIP goes to `pushes`; BR goes back to victim+j
+			if skip == nil {
+				continue
+			}
+			sat := len(head) + 1
+			svs := sat + verifC34BranchWidth(skip)
+			after := svs + len(vic.b)
+			senc, ok := verifC34EncodeBranch(skip, sat, after)
+			if !ok || len(senc) != svs-sat {
+				continue
+			}
+			bat := after + len(pushes)
+			for j := -1; j < len(vic.b); j++ {
+				enc, ok := verifC34EncodeBranch(br, bat, svs+j)
+				if !ok {
+					continue
+				}
+				p := append([]byte{}, head...)
+				p = append(p, v1["intc_1"].Opcode)
+				p = append(p, senc...)
+				p = append(p, vic.b...)
+				p = append(p, pushes...)
+				p = append(p, enc...)
+				progs = append(progs, p)
+				notes = append(notes, fmt.Sprintf("v%d %s back ->%d into %s@%d+%d", v, br.Name, svs+j, vic.name, svs, len(vic.b)))
+			}
+		}
+	}
+	return
+}
+
+// seeded random layouts: 2..5 instructions drawn from the multi-byte shapes, 1..2 branches with targets anywhere in 0..len+1
+func verifC34RandomBranchPrograms(rng *vh.Rng, n int) (progs [][]byte, notes []string, modes []RunMode) {
+	v1 := OpsByName[1]
+	for i := 0; i < n; i++ {
+		v := uint64(1 + rng.Intn(LogicVersion))
+		mode := []RunMode{ModeSig, ModeApp}[rng.Intn(2)]
+		avail := verifC34Available(v, mode)
+		var branches, multi []*OpSpec
+		for _, s := range avail {
+			if verifC34BranchKind(s) != immByte {
+				branches = append(branches, s)
+			} else if len(verifC34Instr(s)) > 1 {
+				multi = append(multi, s)
+			}
+		}
+		fat := verifC34FatVictims(v, mode)
+		p := []byte{byte(v), v1["intcblock"].Opcode, 2, 0, 1}
+		var holes []int // positions of branch instructions to patch
+		var hspec []*OpSpec
+		k := 2 + rng.Intn(4)
+		for j := 0; j < k; j++ {
+			switch {
+			case len(branches) > 0 && rng.Chance(45):
+				br := branches[rng.Intn(len(branches))]
+				p = append(p, verifC34BranchPushes(br)...)
+				holes = append(holes, len(p))
+				hspec = append(hspec, br)
+				p = append(p, make([]byte, verifC34BranchWidth(br))...)
+			case len(fat) > 0 && rng.Chance(25):
+				p = append(p, fat[rng.Intn(len(fat))]...)
+			default:
+				// sub-opcode families are few among ~70 multi-byte shapes: draw them more often
+				var subs []*OpSpec
+				for _, s := range multi {
+					if s.SubOpcode != 0 {
+						subs = append(subs, s)
+					}
+				}
+				if len(subs) > 0 && rng.Chance(40) {
+					p = append(p, verifC34Instr(subs[rng.Intn(len(subs))])...)
+				} else if len(multi) > 0 {
+					p = append(p, verifC34Instr(multi[rng.Intn(len(multi))])...)
+				}
+			}
+		}
+		p = append(p, v1["intc_0"].Opcode)
+		okAll := true
+		for h, at := range holes {
+			tg := rng.Intn(len(p) + 2)
+			enc, ok := verifC34EncodeBranch(hspec[h], at, tg)
+			if !ok || len(enc) != verifC34BranchWidth(hspec[h]) {
+				// keep the layout: fall back to the next instruction
+				enc, ok = verifC34EncodeBranch(hspec[h], at, at+verifC34BranchWidth(hspec[h]))
+				if !ok {
+					okAll = false
+					break
+				}
+			}
+			copy(p[at:], enc)
+		}
+		if !okAll {
+			continue
+		}
+		progs = append(progs, p)
+		notes = append(notes, fmt.Sprintf("v%d random layout", v))
+		modes = append(modes, mode)
+	}
+	return
+}
+
+type verifC34PcTracer struct {
+	NullEvalTracer
+	pcs []int
+}
+
+func (t *verifC34PcTracer) BeforeOpcode(cx *EvalContext) {
+	if len(t.pcs) < 200 {
+		t.pcs = append(t.pcs, cx.pc)
+	}
+}
+
+func verifC34CheckClass(cerr error) (string, string) {
+	if cerr == nil {
+		return "ok", ""
+	}
+	msg := cerr.Error()
+	if verifC34IsPanic(cerr) {
+		return "PANIC", strings.SplitN(msg, "\n", 2)[0]
+	}
+	if c := verifC34BeginClass(msg); c != "" {
+		return c, msg
+	}
+	m := verifC34PcRe.FindStringSubmatch(msg)
+	if m == nil {
+		return "other", msg
+	}
+	switch {
+	case strings.Contains(m[2], "is not an aligned instruction"):
+		return "misaligned", msg
+	case strings.Contains(m[2], "outside of program"), strings.Contains(m[2], "negative branch offset"):
+		return "outside", msg
+	}
+	switch c := verifC34StepClass(m[2]); c {
+	case "toonew", "wrongmode":
+		return c, msg
+	}
+	return "other", msg
+}
+
+func verifC34BrEnv(mode RunMode) verifC34Env {
+	env := verifC34MakeEnv(mode)
+	// small budgets: aligned back branches loop until the budget is gone
+	env.ep.Proto.MaxAppProgramCost = 3000
+	env.ep.Proto.LogicSigMaxCost = 3000
+	env.ep.reset()
+	return env
+}
+
+func verifC34ExecBr(mode RunMode, minv string, prog []byte) (string, string) {
+	env := verifC34BrEnv(mode)
+	ep := env.ep
+	if fmt.Sprint(ep.minAvmVersion) != minv {
+		return "ENVMISMATCH minv=" + fmt.Sprint(ep.minAvmVersion), ""
+	}
+	var cerr error
+	if mode == ModeSig {
+		ep.TxnGroup[0].Lsig.Logic = prog
+		cerr = CheckSignature(0, ep)
+	} else {
+		cerr = CheckContract(prog, 0, ep)
+	}
+	chk, cmsg := verifC34CheckClass(cerr)
+	// instruction starts: the real checkStep driven exactly like check() drives it
+	var starts []int
+	if cerr == nil {
+		env2 := verifC34BrEnv(mode)
+		var cx EvalContext
+		cx.EvalParams = env2.ep
+		cx.runMode = mode
+		cx.branchTargets = make([]bool, len(prog)+1)
+		cx.instructionStarts = make([]bool, len(prog)+1)
+		cx.txn = &env2.ep.TxnGroup[0]
+		if err := cx.begin(prog); err != nil {
+			return "chk=setupfail", "own check loop: begin failed: " + err.Error()
+		}
+		for cx.pc < len(cx.program) {
+			prev := cx.pc
+			if _, err := cx.checkStep(); err != nil || cx.pc <= prev {
+				return "chk=setupfail", fmt.Sprintf("own check loop rejected at %d what Check accepted: %v", prev, err)
+			}
+		}
+		for i, b := range cx.instructionStarts {
+			if b {
+				starts = append(starts, i)
+			}
+		}
+	}
+	env3 := verifC34BrEnv(mode)
+	tr := &verifC34PcTracer{}
+	env3.ep.Tracer = tr
+	var eerr error
+	if mode == ModeSig {
+		env3.ep.TxnGroup[0].Lsig.Logic = prog
+		_, _, eerr = EvalSignatureFull(0, env3.ep)
+	} else {
+		_, _, eerr = EvalContract(prog, 0, 888, env3.ep)
+	}
+	emsg := ""
+	if eerr != nil {
+		emsg = strings.SplitN(eerr.Error(), "\n", 2)[0]
+		if verifC34IsPanic(eerr) && cerr == nil {
+			chk = "PANIC"
+		}
+	}
+	seen := map[int]bool{}
+	var reached []string
+	for _, pc := range tr.pcs {
+		if !seen[pc] {
+			seen[pc] = true
+			reached = append(reached, strconv.Itoa(pc))
+		}
+	}
+	ss := make([]string, len(starts))
+	for i, x := range starts {
+		ss[i] = strconv.Itoa(x)
+	}
+	one := func(s string) string { return strings.ReplaceAll(strings.ReplaceAll(s, "\n", " "), "|", "/") }
+	return "chk=" + chk, fmt.Sprintf("ran=0 | %s | %s | len=%d starts=%s reached=%s", one(cmsg), one(emsg), len(prog), strings.Join(ss, ","), strings.Join(reached, ","))
+}
+
+func verifC34GenerateBr() []string {
+	var ops []string
+	minv := map[RunMode]uint64{ModeSig: verifC34MakeEnv(ModeSig).ep.minAvmVersion, ModeApp: verifC34MakeEnv(ModeApp).ep.minAvmVersion}
+	emit := func(mode RunMode, prog []byte, note string) {
+		ops = append(ops, fmt.Sprintf("br %s %d 0 %s - # %s", verifC34ModeName(mode), minv[mode], hex.EncodeToString(prog), note))
+	}
+	for v := 0; v <= LogicVersion; v++ {
+		for _, m := range []RunMode{ModeSig, ModeApp} {
+			if uint64(v) < minv[m] {
+				continue
+			}
+			progs, notes := verifC34BranchPrograms(uint64(v), m)
+			for i := range progs {
+				emit(m, progs[i], notes[i])
+			}
+		}
+	}
+	rng := vh.NewRng(vh.Seed())
+	progs, notes, modes := verifC34RandomBranchPrograms(rng, vh.Budget(4000, 200000))
+	for i := range progs {
+		emit(modes[i], progs[i], notes[i])
+	}
+	return ops
+}
+
 func TestVerifC34(t *testing.T) {
 	ops, replay := vh.ReplayOps()
 	if !replay {
-		ops = verifC34Generate()
+		ops = append(verifC34Generate(), verifC34GenerateBr()...)
 	}
 	out := vh.Open("c34")
 	defer out.Close()
